@@ -82,6 +82,31 @@ class Gen:
     def case(self):
         return render(*self.case_struct())
 
+    def far_case(self):
+        """timer distances around the point where the distance no longer fits poll's int timeout"""
+        r = self.r
+        self.ctx.count("events.profile.far")
+        far = [(2147482, 999999), (2147482, 999001), (2147482, 999000), (2147483, 0), (2147483, 1),
+               (2147483, 646000), (2147483, 646001), (2147483, 647000), (2147483, 647001), (2147483, 999999),
+               (2147484, 0), (2147484, 500000), (4294967, 296000), (5000000, 7), (2147481, 500000)]
+        t = r.choice(far)
+        prog = [[([], 0)], [([["tr", 0, 0, 500, 1, 0]], 0)]]
+        xs = []
+        if r.random() < 0.3:
+            xs.append(["nr", 1, r.randrange(4), r.randrange(2), 0])
+        xs.append(["tr", 0, t[0], t[1], 0, 0])
+        if r.random() < 0.3:
+            t2 = r.choice(far)
+            xs.append(["tr", 0, t2[0], t2[1], 2, 0])
+        xs.append(["run"])
+        if r.random() < 0.5:
+            xs += [["ts", 0], ["run"]]
+        polls = [r.choice([["r", 0], ["r", 0], ["e0"], ["r", 1, 0, 3]]) for _ in range(8)]
+        base = r.choice([0, 0, 1000000, 999999, 353000, 1])
+        step = r.choice([0, 0, 0, 1, 999, 1000, 353000, 647000, 1000000])
+        clocks = [((base + i * step) // 1000000, (base + i * step) % 1000000) for i in range(12)]
+        return render(prog, xs, polls, clocks)
+
     def case_struct(self):
         r = self.r
         pname = r.choices(["mixed", "net", "imm", "timer", "status", "spin"], [30, 30, 12, 15, 8, 5])[0]
@@ -237,7 +262,7 @@ def run_all(ctx, sub):
     cases = corpus_cases()
     ctx.count("events.corpus", len(cases))
     n = ctx.n(4000, 200000)
-    cases += [g.case() for _ in range(n)]
+    cases += [(g.far_case() if i % 25 == 7 else g.case()) for i in range(n)]
     impl, st = vlib.run_sharded(exe, cases, env=ASAN_ENV, timeout=1500)
     model, _ = vlib.run_sharded(mexe, cases, timeout=1500)
     traces = [l[3:] if l.startswith("ok ") else "" for l in impl]
